@@ -131,23 +131,20 @@ def worker(spec):
         else:
             from stackscope import _lowlevel_cpython_310 as impl
         targets.append(impl.inspect_frame)
-        gate = {"active": False, "escaped": None}
-        orig_trick = LL._contexts_active_by_trickery
+        # faults are injected while the *trickery attempt* of contexts_active_in_frame is running:
+        # from the start of the call until the fallback routine is entered (or the call returns)
+        gate = {"active": False, "escaped": None, "fallback_entered": False}
+        orig_referents = LL._contexts_active_by_referents
 
-        def gated_trickery(frame):
-            gate["active"] = True
-            try:
-                return orig_trick(frame)
-            except BaseException as ex:
-                gate["escaped"] = ex
-                raise
-            finally:
-                gate["active"] = False
+        def gated_referents(*a, **k):
+            gate["active"] = False
+            gate["fallback_entered"] = True
+            return orig_referents(*a, **k)
 
         # make sure trickery was auto-detected *before* patching / injecting
         LL._check_trickery_available()
         LL.inspect_frame(sys._getframe(0))  # resolve the lazy implementation import
-        LL._contexts_active_by_trickery = gated_trickery
+        LL._contexts_active_by_referents = gated_referents
         fp = failpoints.LineFailpoints(failpoints.codes_of(*targets), gate=lambda: gate["active"])
         import random as _random
         frng = _random.Random(spec.get("seed", 0) * 977 + 5)
@@ -167,9 +164,14 @@ def worker(spec):
             origin = fr0.origin
 
             def call():
-                with warnings.catch_warnings(record=True) as w:
-                    warnings.simplefilter("always")
-                    r = ll.contexts_active_in_frame(frame, origin, nxt)
+                gate["fallback_entered"] = False
+                gate["active"] = True
+                try:
+                    with warnings.catch_warnings(record=True) as w:
+                        warnings.simplefilter("always")
+                        r = ll.contexts_active_in_frame(frame, origin, nxt)
+                finally:
+                    gate["active"] = False
                 return r, ctxmon.insp_warnings(w)
 
             _, raised, n = fp.call(call)
@@ -183,8 +185,9 @@ def worker(spec):
                 ks = sorted(frng.sample(ks, per))
             for k in ks:
                 fault = failpoints.InjectedFault("k=%d" % k)
-                gate["escaped"] = None
                 out, raised, _ = fp.call(call, k, fault)
+                # the trickery attempt failed iff the fallback routine was entered
+                gate["escaped"] = fault if (fp.fired and gate["fallback_entered"]) else None
                 res.evaluations += 1
                 res.count("faults_injected")
                 problems = []
@@ -195,8 +198,6 @@ def worker(spec):
                     if gate["escaped"] is not None:
                         res.count("faults_escaped")
                         res.nontrivial(interp, "fault", state["label"], info["step"], i, k)
-                        if gate["escaped"] is not fault:
-                            res.count("faults_transformed")
                         if not iw:
                             problems.append("trickery failed (fault escaped) but no InspectionWarning was emitted")
                         p, exp2, extras = judge(ctxs, run, frame, "fault")
